@@ -102,16 +102,26 @@ func ChanClose(p *Chan) {
 }
 
 func ChanTrySend(p *Chan, v unsafe.Pointer, eltSize int) bool {
+	ok, closed := chanTrySend(p, v, eltSize)
+	if closed {
+		panic(plainError("send on closed channel"))
+	}
+	return ok
+}
+
+// chanTrySend reports a closed channel instead of panicking, so that a blocking
+// select can withdraw its registrations before it raises the panic.
+func chanTrySend(p *Chan, v unsafe.Pointer, eltSize int) (ok bool, closed bool) {
 	n := p.cap
 	p.mutex.Lock()
 	if p.close {
 		p.mutex.Unlock()
-		panic(plainError("send on closed channel"))
+		return false, true
 	}
 	if n == 0 {
 		if p.getp != chanHasRecv {
 			p.mutex.Unlock()
-			return false
+			return false, false
 		}
 		if p.data != nil {
 			c.Memcpy(p.data, v, uintptr(eltSize))
@@ -121,7 +131,7 @@ func ChanTrySend(p *Chan, v unsafe.Pointer, eltSize int) bool {
 	} else {
 		if p.len == n {
 			p.mutex.Unlock()
-			return false
+			return false, false
 		}
 		off := (p.getp + p.len) % n
 		c.Memcpy(c.Advance(p.data, off*eltSize), v, uintptr(eltSize))
@@ -130,7 +140,7 @@ func ChanTrySend(p *Chan, v unsafe.Pointer, eltSize int) bool {
 	notifyOps(p)
 	p.mutex.Unlock()
 	p.cond.Broadcast()
-	return true
+	return true, false
 }
 
 func ChanSend(p *Chan, v unsafe.Pointer, eltSize int) bool {
@@ -354,9 +364,9 @@ func Select(ops ...ChanOp) (isel int, recvOK bool) {
 		}
 		prepareSelect(op.C, selOp, op.Send)
 	}
-	var tryOK bool
+	var tryOK, sendClosed bool
 	for {
-		if isel, recvOK, tryOK = trySelect(ops, sendFirst, sendChans); tryOK {
+		if isel, recvOK, tryOK, sendClosed = trySelect(ops, sendFirst, sendChans); tryOK || sendClosed {
 			break
 		}
 		selOp.wait()
@@ -368,34 +378,39 @@ func Select(ops ...ChanOp) (isel int, recvOK bool) {
 		endSelect(op.C, selOp, op.Send)
 	}
 	selOp.end()
+	if sendClosed {
+		// Raised only now: a recovered panic must not leave this select
+		// registered (and counted as a blocked sender) on its other channels.
+		panic(plainError("send on closed channel"))
+	}
 	return
 }
 
-func trySelect(ops []ChanOp, sendFirst bool, sendChans map[*Chan]bool) (isel int, recvOK, tryOK bool) {
+func trySelect(ops []ChanOp, sendFirst bool, sendChans map[*Chan]bool) (isel int, recvOK, tryOK, sendClosed bool) {
 	// Split probing by direction. If sends are probed first, the recv phase must
 	// not accept select-only senders, because this select's own sends already
 	// failed to commit to a peer. If recvs are probed first, they may accept
 	// select-senders because our own sends have not been attempted yet.
 	if sendFirst {
-		if isel, recvOK, tryOK = trySelectDir(ops, true, false, nil); tryOK {
+		if isel, recvOK, tryOK, sendClosed = trySelectDir(ops, true, false, nil); tryOK || sendClosed {
 			return
 		}
 		return trySelectDir(ops, false, false, sendChans)
 	}
-	if isel, recvOK, tryOK = trySelectDir(ops, false, true, sendChans); tryOK {
+	if isel, recvOK, tryOK, sendClosed = trySelectDir(ops, false, true, sendChans); tryOK || sendClosed {
 		return
 	}
 	return trySelectDir(ops, true, true, nil)
 }
 
-func trySelectDir(ops []ChanOp, send bool, acceptSelectSend bool, sendChans map[*Chan]bool) (isel int, recvOK, tryOK bool) {
+func trySelectDir(ops []ChanOp, send bool, acceptSelectSend bool, sendChans map[*Chan]bool) (isel int, recvOK, tryOK, sendClosed bool) {
 	for isel = range ops {
 		op := ops[isel]
 		if op.C == nil || op.Send != send {
 			continue
 		}
 		if op.Send {
-			if tryOK = ChanTrySend(op.C, op.Val, int(op.Size)); tryOK {
+			if tryOK, sendClosed = chanTrySend(op.C, op.Val, int(op.Size)); tryOK || sendClosed {
 				return
 			}
 			continue
